@@ -178,7 +178,7 @@ fn random_mutation(rng: &mut Rng, u: u32) -> String {
 /// every mutating entry point with every flag value, applied between a paged Browse and the
 /// BrowseNext on its continuation point (nodes 1..5 of class Object, 1 → 2,3,4 Organizes,
 /// 2 → 5 HasComponent, 4 → 5 Organizes)
-const MUTATIONS: [&str; 34] = [
+const MUTATIONS: [&str; 45] = [
     "node 9 1",
     "node 3 1",
     "nodep 9 2 1 35",
@@ -213,9 +213,46 @@ const MUTATIONS: [&str; 34] = [
     "sdelref 1 4 1000 1 0",
     "saddref 3 5 35 1 1",
     "saddref 5 3 35 0 1",
+    "saddref 1 4 35 1 1",
+    "saddref 3 5 35 1 2",
+    "saddref 3 5 35 1 0",
+    "saddref 3 5 1000 1 1",
+    "saddref 5 3 1000 0 1",
+    "saddref 5 3 35 0 2",
+    "saddref 3 9 35 1 1",
+    "saddref 9 3 35 0 1",
+    "sdelnode 9 1",
+    "sdelref 9 4 35 1 0",
+    "sdelref 1 9 35 1 0",
 ];
 
+/// the bounded store at its limit: 19, 20, 21 … outstanding points, then the evicted / oldest / newest ones
+fn flood(rng: &mut Rng, out: &mut Vec<String>) {
+    out.push("reset".to_string());
+    for id in 1..=4 {
+        out.push(format!("node {} 1", id));
+    }
+    for l in ["ref 1 2 35", "ref 1 3 35", "ref 1 4 35"] {
+        out.push(l.to_string());
+    }
+    let total = rng.range(19, 24);
+    for _ in 0..total {
+        out.push(format!("browse 1 0 0 0 0 63 {}", rng.range(1, 2)));
+    }
+    out.push("next [@0]".to_string()); // consumes one, issues one (or the last page)
+    for k in [total - 1, 20, 19, 18, 21, 0] {
+        out.push(format!("next [@{}]", k));
+    }
+    out.push("browse 1 0 0 0 0 63 1".to_string());
+    out.push("release [@1,@2]".to_string());
+    out.push("browse 1 0 0 0 0 63 1".to_string());
+}
+
 fn scenario(rng: &mut Rng, k: usize, out: &mut Vec<String>) {
+    if k % 12 == 5 {
+        flood(rng, out);
+        return;
+    }
     out.push("reset".to_string());
     for id in 1..=5 {
         out.push(format!("node {} 1", id));
